@@ -317,7 +317,7 @@ def h_sctp_sack_then_valid(ctx, role):
         ctx.observe("left", len(t._sent_queue))
 
 
-def h_sctp_then_valid(ctx, role, unordered):
+def h_sctp_then_valid(ctx, role, unordered, frag=None):
     """'... and processes subsequent valid traffic normally': one well-formed but nonsensical
     complete DATA message (any TSN, any stream sequence number, valid tag) on an open channel's
     stream, then two genuine ordered messages with the TSNs and sequence numbers the peer would
@@ -331,7 +331,8 @@ def h_sctp_then_valid(ctx, role, unordered):
         bssn = ctx.int("bogus_ssn", 2, 65535)  # (0 and 1 would impersonate the genuine messages)
         v0 = sx.ite(btsn == 2000, 2001, 2000)
         v1 = sx.ite(btsn == v0 + 1, v0 + 2, v0 + 1)
-        chunks = [(btsn, bssn, 7 if unordered else 3, b"?"), (v0, 0, 3, b"a"), (v1, 1, 3, b"b")]
+        bflags = {None: 3, "middle": 0, "last": 1}[frag] | (4 if unordered else 0)  # a headless fragment never completes
+        chunks = [(btsn, bssn, bflags, b"?"), (v0, 0, 3, b"a"), (v1, 1, 3, b"b")]
         for tsn, ssn, flags, payload in chunks:
             c = sctp.DataChunk(flags=flags)
             c.tsn, c.stream_id, c.stream_seq, c.protocol, c.user_data = tsn, cid, ssn, 53, payload
@@ -722,7 +723,7 @@ HARNESSES = {
         twin="data-handled",
     ),
     "sctp-two-data": Harness("sctp-two-data", h_sctp_two_data, lambda tier: [{"role": r} for r in ("client", "server")], style="NC (structure-aware)", bounds="two DATA chunks with independent symbolic 32-bit TSNs, flags 0..7, stream sequence 0..1", encoded=ENC_SCTP, stubs=STUBS, opts=NC_OPTS, twin="two-data-handled"),
-    "sctp-then-valid": Harness("sctp-then-valid", h_sctp_then_valid, lambda tier: [{"role": r, "unordered": u} for r in ("client", "server") for u in (False, True)], style="NC + delivery (structure-aware)", bounds="one complete DATA message with symbolic 32-bit TSN and stream sequence number 2..65535 (ordered or unordered), then two genuine ordered messages", encoded=ENC_SCTP, stubs=STUBS, opts=NC_OPTS, twin="valid-after-bogus-handled"),
+    "sctp-then-valid": Harness("sctp-then-valid", h_sctp_then_valid, lambda tier: [{"role": r, "unordered": u} for r in ("client", "server") for u in (False, True)] + [{"role": "client", "unordered": u, "frag": f} for u in (False, True) for f in ("middle", "last")], style="NC + delivery (structure-aware)", bounds="one DATA chunk - a complete message, or a middle / last fragment whose first fragment never comes - with symbolic 32-bit TSN and stream sequence number 2..65535 (ordered or unordered), then two genuine ordered messages", encoded=ENC_SCTP, stubs=STUBS, opts=NC_OPTS, twin="valid-after-bogus-handled"),
     "recv-next": Harness("recv-next", lambda ctx, **kw: __import__("harness.c04_dtls", fromlist=["h_demux"]).h_demux(ctx, **kw), lambda tier: [{"connected": True, "n": n} for n in (0, 1, 12)], style="NC", bounds="RTCDtlsTransport._recv_next on one datagram of 0, 1 or 12 bytes whose first two bytes are symbolic", encoded=["aiortc.rtcdtlstransport:RTCDtlsTransport._recv_next"], stubs=["SRTP session -> identity recorder; DTLS engine -> recorder; RTP/RTCP handlers -> recorders"], twin="demuxed", opts=NC_OPTS),
     "stray-dcep": Harness("stray-dcep", lambda ctx, **kw: __import__("harness.c13_channel", fromlist=["h_states"]).h_states(ctx, **kw), lambda tier: [{"pre": p, "event": "dcep"} for p in ("connecting", "open", "closing", "closing-requested", "closed")], style="STEP", bounds="one well-formed but unexpected DCEP message (symbolic stream and message byte) reaching a channel in each lifecycle state: its readyState never moves backwards, no second open / close event, nothing escapes", encoded=ENC_SCTP + ["aiortc.rtcsctptransport:RTCSctpTransport._data_channel_receive"], stubs=STUBS, twin="event-processed", opts={"samples": 1}),
     "sctp-sack-then-valid": Harness("sctp-sack-then-valid", h_sctp_sack_then_valid, lambda tier: [{"role": r} for r in ("client", "server")], style="NC + progress (structure-aware)", bounds="one SACK with a symbolic 32-bit cumulative TSN on a sender with two chunks outstanding, then one more message and the genuine SACK for everything sent", encoded=ENC_SCTP, stubs=STUBS, opts=NC_OPTS, twin="sack-after-bogus-sack-handled"),
